@@ -544,6 +544,24 @@ func c01Check(c *mc.Ctx, k c01Case, doMem, doStreamW, doStreamR bool) {
 				failed = true
 				return
 			}
+			if len(want) <= 1<<20 {
+				// the recycled stream writer is handed out again over a bufiox.Writer implementation of the caller's own
+				// (zero-copy WriteBinary, one chunk per Malloc)
+				zsink := &EnvWriter{}
+				zw := &zcWriter{sink: zsink}
+				bwz := thrift.NewBufferWriter(zw)
+				cvBufWrite(bwz, pre)
+				for _, v := range vals {
+					cvBufWrite(bwz, v)
+				}
+				zw.Flush()
+				bwz.Recycle()
+				if !bytes.Equal(zsink.Got, want2) {
+					bad("bufwrite-bytes-custom-writer", "a recycled BufferWriter used over a caller-implemented zero-copy bufiox.Writer delivered bytes differing from the wire format at +%d (%d bytes, want %d)", firstDiff(zsink.Got, want2), len(zsink.Got), len(want2))
+					failed = true
+					return
+				}
+			}
 			var target []byte
 			yw := bufiox.NewBytesWriter(&target)
 			bw2 := thrift.NewBufferWriter(yw)
